@@ -152,6 +152,11 @@ class Wb2CsrWorld(World):
                 sel = int(op.get("sel", 0)) & ((1 << ratio) - 1)
                 dat = int(op.get("dat", 0)) & ((1 << ww) - 1)
                 we = int(op.get("we", 0)) & 1
+                if sel == 0:
+                    stats.fault("select_mask_zero")
+                elif sel != (1 << ratio) - 1:
+                    stats.fault("select_mask_partial")
+                stats.fault("spaced")
                 # ---- idle gap: nothing may strobe -------------------------------------------
                 p.set(wb.cyc, 0)
                 p.set(wb.stb, 0)
